@@ -227,6 +227,7 @@ def run(rep, tier, seed):
     rep.cov["nospace_on_create_or_rename_judged"] = ncreate_nospace
     rep.cov["fat32_unmounts_checked"] = nunmount32
     rep.cov["traces_validated_against_impl"] = len(judged)
+    sessions.run_crash_continue(rep, "C05", rng, tier, "capacity")
     rep.cov["distribution"] = sc.distribution(judged)
     rep.cov["rule"] = ("fill-to-full / truncate / delete-all cycles on volumes of 30-2000 clusters and random histories with stats at random "
                        "points, FAT12/16 (lazily computed count) and FAT32 (FS-info counter), ending in unmount + remount + stats; compared: "
